@@ -19,6 +19,10 @@ pub const UDP_IDLE_MS: u64 = 8_000;
 pub const SESSION_IDLE_MS: u64 = 3_600_000;
 pub const LONG_MS: u64 = 3 * TCP_IDLE_MS;
 
+pub fn make_core_pub() -> Core {
+    make_core(None)
+}
+
 fn make_core(metrics_addr: Option<SocketAddr>) -> Core {
     let mut b = Settings::builder()
         .listen_address(("127.0.0.1", 1))
